@@ -73,14 +73,28 @@ def ev(t, hole, v):
             return (a != b) if isinstance(a, bool) else (a ^ b)
         if op == "Add":
             return a + b
-        if op in ("Sub", "WrappingSub"):
+        if op == "Sub":
             return a - b
+        if op in ("WrappingSub", "WrappingAdd"):
+            # modular arithmetic: the width comes from a typed operand (a literal or a cast); without one the value is unknown
+            ty = _operand_ty(t[2]) or _operand_ty(t[3])
+            if ty is None:
+                raise Opaque("wrapping operation on operands of unknown width: %s" % show(t))
+            return wrap(a - b if op == "WrappingSub" else a + b, ty)
         if op == "Shl":
             return a << b
         if op == "Shr":
             return a >> b
         raise Opaque("op %s" % op)
     raise Opaque("term %s" % show(t))
+
+
+def _operand_ty(t):
+    if t[0] == "int" and len(t) > 2 and t[2] in INT_TYS:
+        return t[2]
+    if t[0] == "cast" and t[1] in ("int2int", "IntToInt") and t[2] in INT_TYS:
+        return t[2]
+    return None
 
 
 def holes(t, acc=None):
